@@ -779,6 +779,9 @@ class VM:
         if len(args) != len(fn.args): raise VMError('arity mismatch calling %s: %d vs %d' % (fn.name, len(args), len(fn.args)))
         fid = ('F', m.fresh_id())
         for (nm, _), v in zip(fn.args, args): m.mem[(fid, nm)] = v
+        # a closure without captures is a zero-sized value: MIR never assigns such a local, it only borrows it (`_16 = &_8`)
+        for nm, ty in fn.locals.items():
+            if isinstance(ty, str) and ty.startswith('{closure@') and (fid, nm) not in m.mem: m.mem[(fid, nm)] = Closure(ty, (), fn.name)
         m.depth += 1
         work = [(m, 0, 0, {})]
         while work:
